@@ -33,7 +33,7 @@ def expected1 (d : Nat) (e : Event) : List (Nat × Msg) :=
   | .cc => [(d, .cc ch (clamp7 e.v1) (clamp7 e.v2))]
   | .metaEv => [(d, .metaM e.v2.toNat e.data)]
   | .sysex => [(d, .sysex e.data.tail)]
-  | .pitchBend => [(d, .bend ch (e.v1 % 128).toNat ((e.v1 / 128) % 128).toNat)]
+  | .pitchBend => [(d, .bend ch (clamp14 e.v1 % 128).toNat ((clamp14 e.v1 / 128) % 128).toNat)]
   | .pitchBendRange =>
       let r : Nat := if 0 ≤ e.v1 ∧ e.v1 ≤ 24 then e.v1.toNat else 0
       [(d, .cc ch 0x65 0), (0, .cc ch 0x64 0), (0, .cc ch 0x06 r)]
